@@ -228,3 +228,9 @@ Proof.
       apply (LX_app [chr 32] [] _ _); [apply (LX_space (chr 32)); reflexivity|].
       first [exact Ltail | rewrite ?la_app; cbn [la app]; rewrite <- ?app_assoc; exact Ltail].
 Qed.
+
+(* the names under which gates are exported are identifiers *)
+Definition identb (s : string) : bool :=
+  match la s with a :: _ => (is_lower a || is_upper a) && forallb is_idchar (la s) | [] => false end.
+Lemma identb_sound s : identb s = true -> ident_chars (la s).
+Proof. unfold identb, ident_chars. destruct (la s) as [|a w]; [discriminate|]. intros H. apply andb_prop in H. exact H. Qed.
